@@ -262,6 +262,15 @@ func (v *fnVC) applyCall(in ssa.Instruction, ci calleeInfo, args []*T, st *State
 			}
 		}
 	}
+	if strings.HasPrefix(ct.Key, "fnparam:") {
+		// the assumed contract of a function-typed parameter / free variable may mention the
+		// enclosing function's own parameters and free variables
+		for k, t := range v.params {
+			if _, clash := vars[k]; !clash {
+				vars[k] = t
+			}
+		}
+	}
 	mkEx := func(cur, old *State) *Ex {
 		x := &Ex{enc: e, w: v.w, vars: map[string]*T{}, lets: map[string]string{}, cur: cur, old: old}
 		if ci.fn != nil && ci.fn.Pkg != nil {
